@@ -37,6 +37,14 @@ type Op struct {
 	// Live (pub): published with a cancellable context that is never
 	// cancelled while the case runs - a request-scoped context.
 	Live bool `json:"live,omitempty"`
+	// Seq (sub, with Async, never Once): the handler is Async+Sequential.
+	Seq bool `json:"seq,omitempty"`
+	// Dead (pub): published with a context of its own that is cancelled as
+	// soon as PublishContext has returned.  Asynchronous handlers may or may
+	// not still receive that event (at most once); everything else - the
+	// synchronous handlers of this publish, every handler of the other
+	// publishes - is owed what it is always owed.
+	Dead bool `json:"dead,omitempty"`
 }
 
 type Case struct {
@@ -87,6 +95,7 @@ type pubRec struct {
 	call, ret int64
 	filters   map[regKey][]int64
 	handlers  map[regKey][]int64
+	dead      bool // its context was cancelled as soon as the publish had returned
 }
 
 type hist struct {
@@ -175,6 +184,9 @@ func (w *world) execOp(task, idx int, op Op) {
 		if op.Async {
 			so = append(so, w.opts.Async())
 		}
+		if op.Async && op.Seq && !op.Once {
+			so = append(so, w.opts.Sequential())
+		}
 		filter := func(id int) bool {
 			h.mu.Lock()
 			if p := h.pubs[id]; p != nil {
@@ -211,7 +223,11 @@ func (w *world) execOp(task, idx int, op Op) {
 		h.mu.Unlock()
 		rec.call = p.call
 		pctx := context.Background()
-		if op.Live {
+		var dead context.CancelFunc
+		if op.Dead {
+			pctx, dead = context.WithCancel(pctx)
+			p.dead = true
+		} else if op.Live {
 			var cancel context.CancelFunc
 			pctx, cancel = context.WithCancel(pctx)
 			liveCancels.Store(liveSeq.Add(1), cancel) // kept alive, never called during the case
@@ -220,6 +236,9 @@ func (w *world) execOp(task, idx int, op Op) {
 			tops.PubAny(w.bus, pctx, op.ID)
 		} else {
 			tops.Pub(w.bus, pctx, op.ID)
+		}
+		if dead != nil {
+			dead()
 		}
 		h.mu.Lock()
 		p.ret = h.stamp()
@@ -319,7 +338,17 @@ func runOnce(t *testing.T, c *Case) (*vkit.Outcome, []int) {
 	}
 	w.s = nil
 	w.noise = nil
-	w.bus.Wait()
+	if timedOut, dump := vkit.Watchdog(30*time.Second, w.bus.Wait); timedOut {
+		if len(dump) > 6000 {
+			dump = dump[:6000]
+		}
+		h := w.h
+		h.mu.Lock()
+		hs := fmtHist(h)
+		h.mu.Unlock()
+		o.Failf("", "every task of the program has returned, yet bus.Wait() did not return within 30 s: an asynchronous delivery never finishes (an event owed to an asynchronous handler is stuck)\n  history: %s\n%s", hs, dump)
+		return o, nil
+	}
 	check(c, w, o)
 	if sObj != nil {
 		o.Class("scheduled")
@@ -424,6 +453,26 @@ func check(c *Case, w *world, o *vkit.Outcome) {
 				}
 				out = append(out, removal{call, f.pub.ret, "once-retirement"})
 			}
+			if r.async && len(fired[r.key]) == 0 {
+				// never ran: claimed by a publish whose context was cancelled
+				// before the handler's goroutine looked at it, and retired
+				// without having run.  Which of the cancelled publishes whose
+				// filter accepted was the one is not observable: the removal
+				// starts with the first of them and is certain once the last
+				// of them has returned
+				var lo, hi int64 = 1 << 62, -1
+				for _, dp := range h.pubs {
+					if dp == skipPub || !dp.dead || len(dp.handlers[r.key]) != 0 || !accepts(r.filter, dp.id) {
+						continue
+					}
+					if fs := dp.filters[r.key]; len(fs) > 0 {
+						lo, hi = min(lo, fs[0]), max(hi, dp.ret)
+					}
+				}
+				if hi >= 0 {
+					out = append(out, removal{lo, hi, "once-claim-by-a-cancelled-publish"})
+				}
+			}
 		}
 		return out
 	}
@@ -462,10 +511,14 @@ func check(c *Case, w *world, o *vkit.Outcome) {
 			if nh == 1 && (nf != 1 || !acc) {
 				fail("%s: the handler ran although its filter was not called or rejects the event (filter calls %d, accepts=%v)", desc, nf, acc)
 			}
-			if nf == 1 && acc && !r.once && nh != 1 {
+			mayDrop := p.dead && r.async
+			if mayDrop && nf == 1 && acc && nh != 1 {
+				o.Class("asynchronous_delivery_of_a_cancelled_publish_dropped")
+			}
+			if nf == 1 && acc && !r.once && nh != 1 && !mayDrop {
 				fail("%s: the filter accepted the event but the handler did not run", desc)
 			}
-			if nf == 1 && acc && r.once && nh != 1 && len(fired[r.key]) == 0 {
+			if nf == 1 && acc && r.once && nh != 1 && len(fired[r.key]) == 0 && !mayDrop && !claimedByDead(h, r) {
 				fail("%s: the filter of a Once registration accepted the event, the handler did not run for it, and it ran for no other publish of the case either: only a Once registration that has already fired may skip an accepted event", desc)
 			}
 			rm := removalsOf(r, nil, p)
@@ -573,7 +626,14 @@ func check(c *Case, w *world, o *vkit.Outcome) {
 		h.mu.Unlock()
 		cnt := tops.Count(w.bus)
 		tops.Pub(w.bus, context.Background(), id)
-		w.bus.Wait()
+		if timedOut, dump := vkit.Watchdog(30*time.Second, w.bus.Wait); timedOut {
+			if len(dump) > 6000 {
+				dump = dump[:6000]
+			}
+			h.mu.Lock()
+			fail("after quiescence one more event of type T%d was published; bus.Wait() did not return within 30 s: its delivery to an asynchronous handler never finishes\n%s", t, dump)
+			return
+		}
 		h.mu.Lock()
 		total := 0
 		var live []string
@@ -612,6 +672,20 @@ func check(c *Case, w *world, o *vkit.Outcome) {
 		o.Nontrivial = true
 		o.Class("registry_mutation_inside_a_publish_of_the_same_type")
 	}
+}
+
+// claimedByDead: some cancelled publish's filter accepted for the (async,
+// Once) registration and its handler did not run.
+func claimedByDead(h *hist, r *regInfo) bool {
+	if !r.once || !r.async {
+		return false
+	}
+	for _, dp := range h.pubs {
+		if dp.dead && len(dp.filters[r.key]) > 0 && len(dp.handlers[r.key]) == 0 && accepts(r.filter, dp.id) {
+			return true
+		}
+	}
+	return false
 }
 
 func fmtHist(h *hist) string {
